@@ -276,3 +276,6 @@ def absorb(out, ctx):
     if st.ndecisions:
         out.extra.setdefault("schedule_digests", []).append(st.decisions.hexdigest()[:12])
     out.extra["commit_orders"] = out.extra.get("commit_orders", 0) + len(ctx.commit_orders)
+    tr = out.extra.setdefault("schedule_trace", [])
+    if len(tr) < 240 and st.trace:
+        tr.extend(st.trace[: 240 - len(tr)])
